@@ -70,6 +70,54 @@ pub fn dump_index(od: &OpenDir, name: &str) -> J {
 }
 
 pub fn dump_content(c: &jbk::reader::Container, pack: u16, idx: u32) -> J {
+    let direct = dump_content_direct(c, pack, idx);
+    // the same question asked through the helpers of MayMissPack the documentation of get_bytes
+    // shows (`transpose`, `as_ref`, `get`): the answer has the same shape
+    let a = jbk::ContentAddress::new(jbk::PackId::from(pack), jbk::ContentIdx::from(idx));
+    let shape_of = |j: &J| -> &'static str {
+        if j == &json!("no such pack") {
+            "no such pack"
+        } else if j == &json!("no such content") {
+            "no such content"
+        } else if j.get("missing").is_some() {
+            "missing"
+        } else if j.get("err").is_some() {
+            "error"
+        } else {
+            "found"
+        }
+    };
+    let via_transpose = match c.get_bytes(a) {
+        Err(_) => "error",
+        Ok(None) => "no such pack",
+        Ok(Some(m)) => match m.transpose() {
+            None => "no such content",
+            Some(MayMissPack::MISSING(_)) => "missing",
+            Some(MayMissPack::FOUND(_)) => "found",
+        },
+    };
+    let via_get = match c.get_bytes(a) {
+        Err(_) => "error",
+        Ok(None) => "no such pack",
+        Ok(Some(m)) => {
+            let missing = matches!(m.as_ref(), MayMissPack::MISSING(_));
+            match m.get() {
+                None if missing => "missing",
+                None => "helpers disagree: as_ref says found, get says none",
+                Some(_) if missing => "helpers disagree: as_ref says missing, get says some",
+                Some(None) => "no such content",
+                Some(Some(_)) => "found",
+            }
+        }
+    };
+    let want = shape_of(&direct);
+    if via_transpose != want || via_get != want {
+        return json!({"helpers_disagree": {"match": want, "transpose": via_transpose, "as_ref_get": via_get}});
+    }
+    direct
+}
+
+fn dump_content_direct(c: &jbk::reader::Container, pack: u16, idx: u32) -> J {
     let a = jbk::ContentAddress::new(jbk::PackId::from(pack), jbk::ContentIdx::from(idx));
     match c.get_bytes(a) {
         Err(e) => jerr(e),
